@@ -161,6 +161,9 @@ class StreamReversed(StreamWrapper):
     
     def _read(self, size: int) -> bytes:
         raw = super()._read(size)
+        if len(raw) != size:
+            # the window reaches beyond the data: the stream ends here
+            raise SectorReadError(f"Wanted {size}, read {len(raw)}.")
 
         arr = np.frombuffer(raw, np.dtype("int8"))
         num_cols = self.sample_width
